@@ -170,7 +170,15 @@ fn cases(thorough: bool) -> Vec<Case> {
             }
         }
     }
-    for (a, b2) in [(-1i64, 2i64), (0, -1), (65536, 65537), (1, 70000)] {
+    // indices around every width a narrowing conversion could wrap at (16, 32 and 64 bits), both signs
+    let mut odd: Vec<(i64, i64)> = vec![(-1, 2), (0, -1), (65536, 65537), (1, 70000)];
+    for w in [1i64 << 16, 1 << 32, 1 << 31, 1 << 15, 1 << 8] {
+        for (a, b2) in [(w, w + 3), (w + 1, w + 3), (1, w + 3), (w + 1, 3), (-w + 1, 3), (-w, 3), (1, -w + 3), (0, w), (w, 3)] {
+            odd.push((a, b2));
+        }
+    }
+    odd.extend([(i64::MAX, 3), (1, i64::MAX), (i64::MIN + 1, i64::MAX), (-9223372036854775807, 3), (0, -9223372036854775807)]); // i64::MIN cannot be written as a literal
+    for (a, b2) in odd {
         out.push(Case { fname: "substring", args: vec![qa(), Arg::Lit(i(a)), Arg::Lit(i(b2))], lets: vec![], doc: m(vec![("a", s("abcdef"))]), form: "substring-odd-indices" });
     }
     out.push(Case { fname: "substring", args: vec![Arg::Q(false, vec![key("l"), Part::All]), Arg::Lit(i(1)), Arg::Lit(i(3))], lets: vec![], doc: m(vec![("l", l(vec![s("abcd"), s("ab"), i(5), s(""), s("xyz")]))]), form: "substring-list" });
